@@ -693,20 +693,22 @@ func evalListFunction(ctx context.Context, scope *ReferenceScope, expr parser.Li
 			return nil, NewNotGroupingRecordsError(expr, expr.Name)
 		}
 
-		view, err := NewViewFromGroupedRecord(ctx, scope.Tx.Flags, scope.Records[0])
-		if err != nil {
-			return nil, err
-		}
-		if expr.OrderBy != nil {
-			err := view.OrderBy(ctx, scope, expr.OrderBy.(parser.OrderByClause))
+		if scope.Records[0].IsInRange() {
+			view, err := NewViewFromGroupedRecord(ctx, scope.Tx.Flags, scope.Records[0])
 			if err != nil {
 				return nil, err
 			}
-		}
+			if expr.OrderBy != nil {
+				err := view.OrderBy(ctx, scope, expr.OrderBy.(parser.OrderByClause))
+				if err != nil {
+					return nil, err
+				}
+			}
 
-		list, err = view.ListValuesForAggregateFunctions(ctx, scope, expr, expr.Args[0], expr.IsDistinct())
-		if err != nil {
-			return nil, err
+			list, err = view.ListValuesForAggregateFunctions(ctx, scope, expr, expr.Args[0], expr.IsDistinct())
+			if err != nil {
+				return nil, err
+			}
 		}
 	}
 
